@@ -1,9 +1,8 @@
 #!/bin/sh
 # usage: runall.sh <seed> [tier] [props...]  -- runs the registered quick/thorough commands one after the other and prints a summary
 seed=${1:-0}; tier=${2:-quick}; shift; shift
-props="$@"
-[ -z "$props" ] && props=$(python3 -c "import json;print(' '.join(c['property_id'] for c in json.load(open('/verif/MANIFEST.json'))['checks']))")
-cd /verif
+props="$@"; cd "$(dirname "$0")/.."
+[ -z "$props" ] && props=$(python3 -c "import json;print(' '.join(c['property_id'] for c in json.load(open('MANIFEST.json'))['checks']))")
 for p in $props; do
   s=$(date +%s)
   out=$(VERIF_SEED=$seed python3 tools/check.py $p --tier $tier 2>&1); rc=$?
